@@ -135,7 +135,8 @@ def run_ifc(case):
       viols.append(C.viol("name_set_differs", {"ordering": k, "missing": sorted(names0 - decl)[:4], "family": "ifc"}))
       break
   return {"violations": viols, "digest": D.hex(),
-          "nontrivial": stats["objects"] >= 30 and (gst["ifc_lists"] + gst["nested_ifcs"] >= 1), "stats": stats}
+          "nontrivial": stats["objects"] >= 30 and (gst["ifc_lists"] + gst["nested_ifcs"] + gst.get("stdlib_adapter_pipelines", 0) >= 1),
+          "stats": stats}
 
 
 def run_case(case):
